@@ -1494,12 +1494,26 @@ fn gen_send_script(rng: &mut Rng, cfg: &SendCfg, file: &[u8]) -> Vec<String> {
     let rounds = cfg.max as u64 * 2 + 4;
     let ack_at = if rng.chance(2, 3) { rng.below(rounds) } else { u64::MAX };
     let fin_at = if rng.chance(2, 3) { rng.below(rounds) } else { u64::MAX };
+    // user requests while waiting for the receiver (also after a cancel: cancel, suspend, resume ...)
+    let mut late_user: Vec<(u64, &'static str)> = vec![];
+    if rng.chance(1, 3) {
+        for _ in 0..rng.range(1, 4) {
+            late_user.push((rng.below(rounds), *rng.pick(&["cancel", "suspend", "resume", "resume", "report"])));
+        }
+        late_user.sort();
+    }
     for r in 0..rounds {
         if mode == TransmissionMode::Acknowledged && rng.chance(1, 3) {
             ev.push(nak(rng));
         }
         for _ in 0..rng.below(4) {
             ev.push("send send".into());
+        }
+        for (at, op) in late_user.iter() {
+            if *at == r {
+                ev.push(format!("send {}", op));
+                ev.push("send send".into());
+            }
         }
         if r == ack_at {
             ev.push(format!("send pdu {}", hexpdu(&ack_eof)));
